@@ -445,6 +445,7 @@ func init() {
 			{Entry: "VerifC11Driver", Params: map[string]int{"N": 2, "L": 2}, Covers: c11covers, DiffRuns: 60},
 			// OPS 793 = insert|clone|iter|commit|branch|get... : insert(1) delete(2) clone(8) branch(256): clones and kept versions that are written through later
 			{Entry: "VerifC11Driver", Params: map[string]int{"N": 4, "L": 1, "OPS": 1 | 2 | 8 | 256}, Covers: []string{"C11.branched", "C11.kept-version-compared", "C11.end"}, DiffRuns: 20},
+			{Entry: "VerifC11Deep", Params: map[string]int{"N": 1, "DEPTH": 40}, Covers: []string{"C11.deep.end"}, DiffRuns: 10},
 		}, append(fanRuns([]int{4, 5, 16, 17, 48, 49}, 1, nil), append(fanRuns([]int{5, 17, 49}, 1, map[string]int{"INNERLEAF": 1}), fanRuns([]int{2, 4}, 2, map[string]int{"INNERLEAF": 1, "KTAIL": 1, "QTAIL": 0, "CLONE": 0})...)...)...),
 		Thorough: append(append(append([]HarnessRun{
 			{Entry: "VerifC11Driver", Params: map[string]int{"N": 3, "L": 2}, Covers: c11covers, DiffRuns: 100},
@@ -466,7 +467,7 @@ func init() {
 	}
 	reg(&CheckSpec{
 		ID: "C12", PkgDir: "part",
-		Quick:    []HarnessRun{w(1, 2, 1, 0, 0), w(1, 2, 1, 1, 0), w(2, 1, 1, 0, 1), w(1, 1, 2, 0, 0), w(1, 1, 2, 1, 0), preset(1, 1), preset(2, 1), preset(4, 1), preset(5, 1)},
+		Quick:    []HarnessRun{w(1, 2, 1, 0, 0), w(1, 2, 1, 1, 0), w(2, 1, 1, 0, 1), w(1, 1, 2, 0, 0), w(1, 1, 2, 1, 0), preset(1, 1), preset(2, 1), preset(4, 1), preset(5, 1), preset(6, 1)},
 		Thorough: []HarnessRun{w(2, 2, 1, 0, 0), w(2, 2, 1, 1, 1), w(2, 1, 2, 0, 1), w(2, 1, 2, 1, 0), w(1, 2, 2, 0, 0), preset(1, 2), preset(2, 1), preset(3, 1), preset(4, 2)},
 		Outside:  []string{"outside: trees deeper than the keys of length <= L allow; more than N1 pre-state keys and N2 later operations; channels of write-transaction queries"},
 	})
@@ -484,10 +485,14 @@ func init() {
 	c13p := func(preset, n int) HarnessRun {
 		return HarnessRun{Entry: "VerifC13Driver", Params: map[string]int{"N": n, "W": 8, "CHECK": 0, "PRESET": preset, "OPS": 1 | 2 | 128, "PLSET": 1 | 2 | 4 | 16}, Covers: []string{"C13.deleted-existing", "C13.end"}, DiffRuns: 20}
 	}
+	// iterators kept from an open transaction (All/Prefix/LowerBound) across later writes of the same transaction
+	c13it := func(n int) HarnessRun {
+		return HarnessRun{Entry: "VerifC13Driver", Params: map[string]int{"N": n, "W": 8, "CHECK": 0, "OPS": 1 | 2 | 8 | 16 | 32, "PLSET": 1 | 2 | 256}, Covers: []string{"C13.kept-iterator-compared", "C13.end"}, DiffRuns: 20}
+	}
 	reg(&CheckSpec{
 		ID: "C13", PkgDir: "lpm",
 		// PLSET 291 = prefix lengths {0,1,5,8}; 99203 = {0,1,7,8,9,15,16}
-		Quick:    []HarnessRun{c13(2, 8, 291, 0, 60), c13(2, 8, 291, 1, 60), c13(2, 8, -1, 0, 30), c13p(1, 2), c13p(2, 2), c13p(3, 2)},
+		Quick:    []HarnessRun{c13(2, 8, 291, 0, 60), c13(2, 8, 291, 1, 60), c13(2, 8, -1, 0, 30), c13p(1, 2), c13p(2, 2), c13p(3, 2), c13it(3)},
 		Thorough: []HarnessRun{c13(2, 8, -1, 0, 60), c13(2, 8, -1, 1, 60), c13(3, 8, 291, 0, 60), c13(3, 8, 291, 1, 60), c13(2, 16, 99203, 0, 30), c13(2, 16, 99203, 1, 30)},
 		Outside: []string{"outside: keys wider than W bits (8 quick, 16 thorough; the trie logic is width-generic, width is a loop bound only), prefix lengths outside the listed PLSET in runs that restrict it, more than N operations; Lookup of a non-stored shorter-than-full key is not asserted (undefined by the statement); netip conversion helpers"},
 	})
@@ -506,6 +511,7 @@ func init() {
 		Thorough: []HarnessRun{
 			{Entry: "VerifC17Break", Covers: []string{"C17.break.end"}, DiffRuns: 10},
 			c17m(2, 1, 31), c17m(3, 1, 7), c17m(2, 2, 7),
+			{Entry: "VerifC17Map", Params: map[string]int{"N": 1, "L": 2, "OPS": 3, "BIGPRE": 17}, Covers: []string{"C17.map.end"}, DiffRuns: 10},
 			{Entry: "VerifC17Set", Params: map[string]int{"N": 3, "L": 1}, Covers: []string{"C17.set.end", "C17.set.union", "C17.set.difference"}, DiffRuns: 40},
 			{Entry: "VerifKFFromMapSingleton"}, {Entry: "VerifKFMapTxnReuse"},
 		},
@@ -612,7 +618,7 @@ func init() {
 	reg(&CheckSpec{
 		ID: "C05", PkgDir: "statedb",
 		Quick: []HarnessRun{
-			{Entry: "VerifC05Serial", Covers: []string{"C05.disjoint-commit", "C05.blocked", "C05.newtable", "C05.end"}, NoNative: true},
+			{Entry: "VerifC05Serial", Covers: []string{"C05.disjoint-commit", "C05.blocked", "C05.newtable", "C05.end"}, NoNative: true, Deadlock: true},
 			{Entry: "VerifKFCommitDropsNewTable"},
 			{Entry: "VerifC10Threads", Params: map[string]int{"T": 2, "LISTMAX": 3, "KINDMAX": 0}, Covers: []string{"C10.end"}, NoNative: true, Preempt: 1, Deadlock: true},
 			{Entry: "VerifC10Threads", Params: map[string]int{"T": 2, "LISTMAX": 1, "KINDMAX": 2}, Covers: []string{"C10.end"}, NoNative: true, Preempt: 1, Budget2: 3, Deadlock: true},
@@ -621,7 +627,7 @@ func init() {
 		},
 		Thorough: []HarnessRun{
 			{Entry: "VerifC10Threads", Params: map[string]int{"T": 3, "LISTMAX": 1, "KINDMAX": 2}, Covers: []string{"C10.end"}, NoNative: true, Preempt: 1, Budget2: 3, Deadlock: true},
-			{Entry: "VerifC05Serial", Covers: []string{"C05.disjoint-commit", "C05.blocked", "C05.newtable", "C05.end"}, NoNative: true},
+			{Entry: "VerifC05Serial", Covers: []string{"C05.disjoint-commit", "C05.blocked", "C05.newtable", "C05.end"}, NoNative: true, Deadlock: true},
 			{Entry: "VerifKFCommitDropsNewTable"},
 			{Entry: "VerifC10Threads", Params: map[string]int{"T": 2, "LISTMAX": 7, "KINDMAX": 0}, Covers: []string{"C10.end"}, NoNative: true, Preempt: 1, Budget2: 3, Deadlock: true},
 			{Entry: "VerifC10Threads", Params: map[string]int{"T": 3, "LISTMAX": 2, "KINDMAX": 0}, Covers: []string{"C10.end"}, NoNative: true, Preempt: 1, Deadlock: true},
@@ -634,13 +640,13 @@ func init() {
 		ID: "C10", PkgDir: "statedb",
 		Quick: []HarnessRun{
 			{Entry: "VerifC10Threads", Params: map[string]int{"T": 2, "LISTMAX": 7, "KINDMAX": 1}, Covers: []string{"C10.end"}, NoNative: true, Preempt: 1, Deadlock: true},
-			{Entry: "VerifC05Serial", Covers: []string{"C05.disjoint-commit", "C05.blocked", "C05.end"}, NoNative: true},
+			{Entry: "VerifC05Serial", Covers: []string{"C05.disjoint-commit", "C05.blocked", "C05.end"}, NoNative: true, Deadlock: true},
 		},
 		Thorough: []HarnessRun{
 			{Entry: "VerifC10Threads", Params: map[string]int{"T": 2, "LISTMAX": 7, "KINDMAX": 1}, Covers: []string{"C10.end"}, NoNative: true, Preempt: 1, Budget2: 4, Deadlock: true},
 			{Entry: "VerifC10Threads", Params: map[string]int{"T": 3, "LISTMAX": 4, "KINDMAX": 1}, Covers: []string{"C10.end"}, NoNative: true, Preempt: 1, Budget2: 2, Deadlock: true},
 			{Entry: "VerifC08Graveyard", Params: map[string]int{"N": 2, "NIT": 1}, Covers: []string{"C08.end"}, NoNative: true, Preempt: 1, Deadlock: true},
-			{Entry: "VerifC05Serial", Covers: []string{"C05.disjoint-commit", "C05.blocked", "C05.end"}, NoNative: true},
+			{Entry: "VerifC05Serial", Covers: []string{"C05.disjoint-commit", "C05.blocked", "C05.end"}, NoNative: true, Deadlock: true},
 		},
 		Outside: []string{"outside: starvation/fairness under real schedulers; more than 3 threads; the lock-order argument (acyclic acquisition graph over every explored path, no channel/timer wait while a lock is held) extends the deadlock verdict beyond the explored thread counts only under the assumption that mutexes and the non-blocking channel sends seen on the explored paths are the only waiting primitives reachable from these entry points",
 			"the solver contributes little here: table lists and schedules are small enumerations; the value is the controlled execution of the real lock code"},
